@@ -273,6 +273,19 @@ func init() {
 		return bigFromValue(args[0].(*value)).Text(int(fr.i.concreteInt(args[1])))
 	}
 	stubs["(*math/big.Int).Bytes"] = func(fr *frame, args []value) value {
+		i := fr.i
+		if bigIsSym(args[0].(*value)) {
+			// minimal big-endian magnitude: leading zero bytes are stripped by forking
+			be := i.bigBytesBE(args[0].(*value))
+			for len(be) > 0 {
+				if i.decide(i.cx.Eq(i.term(be[0]), i.cx.BV(0, 8))) {
+					be = be[1:]
+				} else {
+					break
+				}
+			}
+			return append([]value{}, be...)
+		}
 		bs := bigFromValue(args[0].(*value)).Bytes()
 		out := make([]value, len(bs))
 		for k, b := range bs {
